@@ -2,7 +2,7 @@
    Fragment: every canonical expression sentence is accepted and yields its tree (Parse/RoundTrip.v).
    The rest of the reference grammar G (bin/gens.py, written from the documentation) is exercised on the implementation:
    systematic + random sentences under the specific entry point, ParseStatement and the list entry points. *)
-From Verif Require Import Base.Bytes Tree.Tree Parse.ExprModel Parse.ExprFacts Parse.Spell Parse.RoundTrip.
+From Verif Require Import Base.Bytes Tree.Tree Parse.ExprModel Parse.ExprFacts Parse.Spell Parse.RoundTrip Parse.TypeModel Parse.TypeProofs.
 
 (* every sentence of the expression fragment of G -- a canonical tree spelled without added parentheses -- is accepted by the
    fragment parser, consumes exactly its tokens and yields exactly that tree *)
@@ -13,3 +13,36 @@ Print Assumptions C08_fragment_sentences_are_accepted.
 Theorem C08_acceptance_is_deterministic : forall m ts r r', Parses m ts r -> Parses m ts r' -> r = r'.
 Proof. exact Parses_det. Qed.
 Print Assumptions C08_acceptance_is_deterministic.
+
+(* ---- the type grammar (ParseType), whole: Parse/TypeModel.v transcribes parseType ... parseFieldType without leaving anything out;
+   [Tr t ts K] (Parse/TypeProofs.v) is the grammar of the reference -- simple type names, dotted type names, ARRAY<T>, STRUCT<>,
+   STRUCT<[name] T, ...> -- with the position every node field is documented to hold.  [unfuse] reads every ">>" token as two closing
+   brackets at its two bytes. *)
+
+(* every sentence of the type grammar followed by the end of input is accepted by the entry point, and the result is exactly the tree
+   the grammar assigns, all positions included *)
+Theorem C08_type_sentences_are_accepted : forall t ts e, kis e K_eof = true -> Tr t (unfuse ts) [e] -> parse_type ts = Ok (t, [e]).
+Proof. exact parse_type_accepts. Qed.
+Print Assumptions C08_type_sentences_are_accepted.
+
+(* and only those: what the entry point accepts is a sentence of the grammar with that tree *)
+Theorem C08_accepted_types_are_sentences : forall ts t r, last_eof ts -> parse_type ts = Ok (t, r) ->
+  Tr t (unfuse ts) (unfuse r) /\ kis (cur r) K_eof = true.
+Proof. exact parse_type_sound. Qed.
+Print Assumptions C08_accepted_types_are_sentences.
+
+(* white space between two closing brackets changes nothing: the parser answers on a token list exactly as on the list in which every
+   ">>" is two ">" tokens *)
+Theorem C08_closing_brackets_may_fuse : forall f ts, PT f (unfuse ts) = rmapU (PT f ts).
+Proof. exact PT_unfuse. Qed.
+Print Assumptions C08_closing_brackets_may_fuse.
+
+(* non-vacuity: ARRAY<STRUCT<a ARRAY<INT64>>>, its three closing brackets lexed as ">>" ">", with every position *)
+Example C08_type_example :
+  let tkz (k : String.string) (p : Z) (n : Z) := {| pk := bs k; praw := bs k; pstr := []; ppos := p; pend := (p + n)%Z; pbase := 0 |} in
+  let idz (s : String.string) (p : Z) := {| pk := bs K_ident; praw := bs s; pstr := bs s; ppos := p; pend := (p + Z.of_nat (String.length s))%Z; pbase := 0 |} in
+  let ts := [tkz "ARRAY"%string 0 5; tkz "<"%string 5 1; tkz "STRUCT"%string 6 6; tkz "<"%string 12 1; idz "a"%string 13; tkz "ARRAY"%string 15 5;
+             tkz "<"%string 20 1; idz "INT64"%string 21; tkz ">>"%string 26 2; tkz ">"%string 28 1; tkz K_eof 29 0]%Z in
+  exists e, parse_type ts =
+    Ok (TArray 0 28 (TStruct 6 27 [(Some {| id_pos := 13; id_end := 14; id_name := bs "a" |}, TArray 15 26 (TSimple 21 (bs "INT64")))]), [e])%Z.
+Proof. exact nested_closers. Qed.
